@@ -2,6 +2,8 @@
 from vf import refmodel as R
 from vf.harness import common as H
 
+BOUNDS = {"all": "definitions: curated + every 1-field (full alphabet) + every 2-field (core alphabet) struct [quick]; full alphabet 2-field exhaustive, 3-field and 3..6-field random samples [thorough]; x {<,>} x {packed,aligned} x {interpreted,compiled}; input = extent+slack symbolic bytes (<= 40) at offset 0; expression-sized arrays <= 3 elements; LEB128 canonical; floats non-NaN; wchar BMP non-surrogate"}
+
 PROPERTY = "C02"
 
 
@@ -49,11 +51,5 @@ def make(case):
 
 
 def cases(tier, seed):
-    from vf import defgen as G
-    for label, T in G.curated():
-        for cfg in G.configs():
-            yield {"label": label, "T": T, "cfg": cfg, "nbytes": H.input_len(T, cfg)}
-    alphabet = G.CORE if tier == "quick" else G.FULL
-    for label, T in G.sequences(alphabet, 2):
-        for cfg in G.configs():
-            yield {"label": label, "T": T, "cfg": cfg, "nbytes": H.input_len(T, cfg)}
+    from vf import families
+    yield from families.struct_cases(tier, seed)
